@@ -10,7 +10,9 @@ from . import modside as ms
 THEOREMS = ['C03.journal_is_declaration', 'C03.memoisation_keeps_journal', 'C03.symbol_id_is_table_position',
             'C03.symbol_ids_injective', 'C03.symbol_id_stable', 'C03.ids_fit_in_a_byte',
             # the phases as written are the model (Pi2/Props/C08b.lean, Pi2/ProofTie.lean, vlib/transproof.py)
-            'C03.phases_text_is_the_model', 'C03.memo_phases_text_is_the_model', 'C03.serialize_text_shape']
+            'C03.phases_text_is_the_model', 'C03.memo_phases_text_is_the_model', 'C03.serialize_text_shape',
+            # execute_full as written ON the StatefulInterpreter as written is the model (Pi2/ComposeTie.lean)
+            'C03.phases_text_on_stateful_text_is_the_model', 'C03.memo_phases_text_on_stateful_text_is_the_model']
 
 
 def declared(m):
